@@ -12,8 +12,33 @@
 #include "C19_plan.hpp"
 #include "C19_sc.hpp"
 
+#include "romea_core_common/monitoring/OnlineAverage.hpp"
+#include "romea_core_common/monitoring/OnlineVariance.hpp"
+
 using namespace sim;
 using namespace c19;
+
+// sequential specification of the online statistics = the library classes themselves, run sequentially
+namespace {
+namespace rcm = romea::core;
+void * twinMake(int W, bool variance) {return variance ? (void *)new rcm::OnlineVariance(1.0, (size_t)W) : (void *)new rcm::OnlineAverage(1.0, (size_t)W);}
+void * twinClone(void * t, bool variance) {return variance ? (void *)new rcm::OnlineVariance(*(rcm::OnlineVariance *)t) : (void *)new rcm::OnlineAverage(*(rcm::OnlineAverage *)t);}
+void twinDestroy(void * t, bool variance) {if (variance) {delete (rcm::OnlineVariance *)t;} else {delete (rcm::OnlineAverage *)t;}}
+bool twinApply(void * t, bool variance, const Rec & r)
+{
+  rcm::OnlineAverage * a = variance ? (rcm::OnlineAverage *)(rcm::OnlineVariance *)t : (rcm::OnlineAverage *)t;
+  switch (r.kind) {
+    case O_UPDATE: a->update(r.v); return true;
+    case O_RESET: a->reset(); return true;
+    case O_GET_AVG: return closeTo(r.out, a->getAverage());
+    case O_IS_AVAIL: return r.flag == a->isAvailable();
+    case O_GET_VAR: return variance ? closeTo(r.out, ((rcm::OnlineVariance *)t)->getVariance()) : true;
+    default: return true;
+  }
+}
+TwinOps kTwinOps = {twinMake, twinClone, twinDestroy, twinApply};
+struct TwinInstaller {TwinInstaller() {gTwinOps = &kTwinOps;}} kTwinInstaller;
+}  // namespace
 
 namespace {
 
@@ -106,6 +131,7 @@ struct PropC19
     const int sc = p.scenario;
     p.W = (int)r.range(sc == S_ONLINE_VAR ? 2 : 1, 4);
     checkupConfig(sc, p);
+    if (sc == S_SHARED_VAR || sc == S_SHARED_OPT) {p.a = r.chance(0.3) ? 1 : 0;}   // constructor variant
     int budget = 32;
     auto take = [&](int n) {n = std::min(n, budget); budget -= n; return n;};
     if (sc == S_SHARED_OPT) {
@@ -179,6 +205,7 @@ struct PropC19
     const int sc = p.scenario;
     p.W = (int)r.range(sc == S_ONLINE_VAR ? 2 : 1, 4);
     checkupConfig(sc, p);
+    if (sc == S_SHARED_VAR || sc == S_SHARED_OPT) {p.a = r.chance(0.3) ? 1 : 0;}
     const uint32_t total = 100000;
     if (sc == S_SHARED_OPT) {
       int np = (int)r.range(1, 4), nc = (int)r.range(1, 4);
@@ -290,6 +317,7 @@ struct PropC19
     // ---- the optional: every value taken was stored, exactly once, per producer in store order
     if (p.scenario == S_SHARED_OPT) {
       std::set<uint64_t> stored, seen;
+      if (p.a != 0) {stored.insert(kInitialOptionalSeq); SIM_PROBE("optional_born_with_a_value");}
       for (auto & t : p.tasks) {
         for (uint32_t rep = 0; rep < t.repeat; ++rep) {for (auto & o : t.ops) {if (o.kind == O_STORE) {stored.insert(o.seq + rep * t.seqStep);}}}
       }
@@ -506,7 +534,7 @@ struct PropC19
   }
   std::vector<std::string> probeNames() const
   {
-    return {"preempted_while_holding_the_mutex", "thread_blocked_on_contended_mutex", "long_run_1e5_operations", "pct_schedule"};
+    return {"preempted_while_holding_the_mutex", "thread_blocked_on_contended_mutex", "long_run_1e5_operations", "pct_schedule", "optional_born_with_a_value"};
   }
   Json describe() const
   {
@@ -540,7 +568,7 @@ struct PropC19
     Json as = Json::array();
     as.push("sequentially consistent exploration suffices: if no data race exists the C++ memory model guarantees SC behaviour (all atomics in the anchored code are seq_cst); if one exists the detector reports it");
     as.push("'a value some sequential ordering of the calls would produce' is read as sequential consistency; real-time order (linearizability) is not demanded");
-    as.push("getAverage() on an empty window and getVariance() before the window is full are unconstrained in the sequential specification");
+    as.push("for the online statistics the sequential specification is the library class itself executed sequentially in the candidate order (so also getAverage() on an empty window and getVariance() before the window is full must be values a sequential order produces); for the other scenarios it is the C17/C18 reference model");
     as.push("a watchdog thread calling Checkup::timeout() concurrently with evaluate() is within the property (it is what heartBeatCallback does)");
     d.set("assumptions", as);
     return d;
